@@ -116,7 +116,7 @@ def build(r: Any, depth: int, clock: str = "num", p_nonconf: float = 0.0, exclud
 
 def execute(b: Built, keep: list | None = None, top: ProbeObserver | None = None, as_callbacks: bool = False,
             trampoline: bool = False, end_children: bool = True, end: float = END,
-            after_action: Callable[[int], None] | None = None) -> ProbeObserver:
+            after_action: Callable[[int, Any], None] | None = None) -> ProbeObserver:
     lab = b.lab
     o = b.observable(keep)
     top = top or lab.observer("top")
@@ -159,7 +159,7 @@ def execute(b: Built, keep: list | None = None, top: ProbeObserver | None = None
         lab.run(until=end)
         return top
     # Lab.action_hook runs inside ScheduledItem.invoke, i.e. after the scheduler has already found the item not
-    # cancelled: a dispose made there could never cancel that very item. `after_action(n)` runs when action n is over.
+    # cancelled: a dispose made there could never cancel that very item. `after_action(n, item)` runs when action n is over.
     real = ScheduledItem.invoke
 
     def invoke(item: Any) -> None:
@@ -168,7 +168,7 @@ def execute(b: Built, keep: list | None = None, top: ProbeObserver | None = None
             real(item)
         finally:
             if mine:
-                after_action(lab.nactions)
+                after_action(lab.nactions, item)
 
     ScheduledItem.invoke = invoke  # type: ignore[method-assign]
     try:
